@@ -59,7 +59,7 @@ _p("C04", "bounded exhaustive enumeration of byte-level argument vectors with fo
    "(crash, terminate, other exception, sanitizer report, hang are attributed to the case) and accept exactly when the reference accepts",
    "DESIGN.md 6 C04")
 _p("C11", "bounded exhaustive enumeration of toggle declarations x occurrence patterns x environment words; closed-world word enumeration",
-   "model checking of the implementation: 48 toggle declarations x every vector up to the bound over the occurrence alphabet (counts, "
+   "model checking of the implementation: 96 toggle declarations (short name, reversible, default 0/1/3, env bound, alone / with a second toggle and an option in the same or in different groups) x every vector up to the bound over the occurrence alphabet (counts, "
    "bundles, --no- in all orders) against the reference; the environment vocabulary is decided as a closed world over every string up "
    "to the length bound over the vocabulary's characters, all case variants and all single edits of the 30 documented words",
    "DESIGN.md 6 C11")
